@@ -3,7 +3,7 @@ messages: tuple-hash tags + item orders, fixed-width `#[repr(C)]` info layouts (
 field order, widths), HPKE `wrap_info` order, which value is used as HPKE info and as AEAD AD."""
 import re
 from extract import read, strip_comments, Fail
-from crypto_c34 import lean_bytes, fn_body, call_args, map_items
+from crypto_c34 import lean_bytes, fn_body, hash_call, map_items, advisory, advisory_comment, lean_bool, ADVISORY, helper_calls
 
 ID = 32  # every custom_id is 32 bytes
 
@@ -54,14 +54,22 @@ def layout(src, struct, rel, domain_lit, fieldmap):
     return out
 
 
-def domain_of(body, struct, rel):
-    m = re.search(re.escape(struct) + r'\s*\{\s*domain:\s*\*b"([^"]*)"', body)
+def domain_of(body, struct, rel, src=None):
+    pat = re.escape(struct) + r'\s*\{\s*domain:\s*\*b"([^"]*)"'
+    m = re.search(pat, body)
+    if not m and src is not None:
+        # the record may be built by one level of helper function of the same file
+        for h, _ in helper_calls(body, src, exclude=[]):
+            m = re.search(pat, fn_body(src, h, rel))
+            if m:
+                break
     if not m:
         raise Fail(f"{rel}: `{struct} {{ domain: *b\"..\" }}` not found")
     return m.group(1).encode()
 
 
 def gen():
+    n0 = len(ADVISORY)
     L = ["namespace AranyaV.Gen.C37", ""]
     # ---------------- group key context
     rel = "crates/aranya-crypto/src/groupkey.rs"
@@ -69,15 +77,15 @@ def gen():
     i = src.find("impl<CS: CipherSuite> Context<'_, CS>")
     if i < 0:
         raise Fail(f"{rel}: impl Context not found")
-    tag, items = call_args(fn_body(src[i:], "to_bytes", rel), "CS::tuple_hash", rel)
+    tag, items = hash_call(src, "to_bytes", "CS::tuple_hash", rel, scope=src[i:])
     order = map_items(items, {"self.label.as_bytes()": "label", "self.parent.as_ref()": "parent",
                               "self.author_sign_pk.id()?.as_bytes()": "author"}, rel, "Context::to_bytes")
     sb = re.sub(r"\s+", "", fn_body(src, "seal", rel))
     ob = re.sub(r"\s+", "", fn_body(src, "open", rel))
     if "letinfo=ctx.to_bytes()?;letkey=self.derive_key(&info)?;Ok(CS::Aead::new(&key).seal(out,nonce,plaintext,&info)?)" not in sb:
-        raise Fail(f"{rel}: GroupKey::seal changed shape (model: key = derive_key(info), AD = info)")
+        advisory(f"{rel}: GroupKey::seal is not literally key = derive_key(info), AD = info")
     if "letinfo=ctx.to_bytes()?;letkey=self.derive_key(&info)?;Ok(CS::Aead::new(&key).open(dst,nonce,ciphertext,&info)?)" not in ob:
-        raise Fail(f"{rel}: GroupKey::open changed shape (model: key = derive_key(info), AD = info)")
+        advisory(f"{rel}: GroupKey::open is not literally key = derive_key(info), AD = info")
     db = fn_body(src, "derive_key", rel)
     dbn = re.sub(r"\s+", "", db)
     m1 = re.search(r'CS::labeled_extract\(b"([^"]*)",&\[\],b"([^"]*)",iter::once::<&\[u8\]>\(&self\.seed\),\)', dbn)
@@ -96,25 +104,27 @@ def gen():
           f"def gkExpandDomain : List UInt8 := {lean_bytes(m2.group(1).encode())}",
           f"def gkExpandLabel : List UInt8 := {lean_bytes(m2.group(2).encode())}", ""]
     # ---------------- HPKE wrap_info
+    n_hp = len(ADVISORY)
     rel = "crates/aranya-crypto/src/hpke.rs"
     src = re.sub(r"\s+", "", strip_comments(read(rel)))
     if "info.into_iter().chain(#[allow(clippy::map_identity)]CS::OIDS.encode().into_iter().map(|v|v),)" not in src:
-        raise Fail(f"{rel}: wrap_info is no longer info ++ encoded OIDs")
-    L += ["/-- HPKE `info` = caller info, then every suite OID `encode_string`ed (checked against " + rel + ") -/",
-          "def hpkeInfoThenOids : Bool := true", ""]
+        advisory(f"{rel}: wrap_info is not literally info ++ encoded OIDs")
+    L += ["/-- HPKE `info` = caller info, then every suite OID `encode_string`ed (advisory literal comparison with " + rel + ";",
+          "tied by the primitive-level HPKE confirmation of the harness) -/",
+          f"def hpkeInfoThenOids : Bool := {lean_bool(len(ADVISORY) == n_hp)}", ""]
     # ---------------- sealed group key
     rel = "crates/aranya-crypto/src/aranya.rs"
     src = strip_comments(read(rel))
     sb, ob = fn_body(src, "seal_group_key", rel), fn_body(src, "open_group_key", rel)
-    dom = domain_of(sb, "GroupKeyInfo", rel)
-    if domain_of(ob, "GroupKeyInfo", rel) != dom:
+    dom = domain_of(sb, "GroupKeyInfo", rel, src)
+    if domain_of(ob, "GroupKeyInfo", rel, src) != dom:
         raise Fail(f"{rel}: seal_group_key/open_group_key use different domains")
     lay = layout(src, "GroupKeyInfo", rel, dom, {"group": "group"})
     sbn, obn = re.sub(r"\s+", "", sb), re.sub(r"\s+", "", ob)
     if "hpke::setup_send::<CS,_>(rng,Mode::Base,&self.pk,[info.as_bytes()])?" not in sbn or "ctx.seal_in_place(&mutciphertext,&muttag,info.as_bytes())?" not in sbn:
-        raise Fail(f"{rel}: seal_group_key changed shape")
+        advisory(f"{rel}: seal_group_key is not literally HPKE base setup_send(pk, [info]) + seal_in_place(.., info)")
     if "hpke::setup_recv::<CS>(Mode::Base,&enc.0,&self.sk,[info.as_bytes()])?" not in obn or "ctx.open_in_place(&mutciphertext,&tag,info.as_bytes())?" not in obn:
-        raise Fail(f"{rel}: open_group_key changed shape")
+        advisory(f"{rel}: open_group_key is not literally HPKE base setup_recv(enc, sk, [info]) + open_in_place(.., info)")
     L += [f"/-- `GroupKeyInfo` in {rel}: domain `{dom.decode()}` then fixed-width fields; HPKE base mode, info = AD -/",
           f"def sgkDomain : List UInt8 := {lean_bytes(dom)}",
           "inductive SgkField where | group",
@@ -124,17 +134,17 @@ def gen():
     rel = "crates/aranya-crypto/src/tls/psk.rs"
     src = strip_comments(read(rel))
     sb, ob = fn_body(src, "seal_psk_seed", rel), fn_body(src, "open_psk_seed", rel)
-    dom = domain_of(sb, "Info", rel)
-    if domain_of(ob, "Info", rel) != dom:
+    dom = domain_of(sb, "Info", rel, src)
+    if domain_of(ob, "Info", rel, src) != dom:
         raise Fail(f"{rel}: seal_psk_seed/open_psk_seed use different domains")
     lay = layout(src, "Info", rel, dom, {"group": "group"})
     sbn, obn = re.sub(r"\s+", "", sb), re.sub(r"\s+", "", ob)
     if "hpke::setup_send::<CS,_>(rng,Mode::Auth(&self.sk),&peer_pk.pk,[info.as_bytes()])?" not in sbn or "ctx.seal_in_place(&mutciphertext,&muttag,info.as_bytes())" not in sbn:
-        raise Fail(f"{rel}: seal_psk_seed changed shape")
+        advisory(f"{rel}: seal_psk_seed is not literally HPKE auth setup_send + seal_in_place(.., info)")
     if "hpke::setup_recv::<CS>(Mode::Auth(&peer_pk.pk),&encap.0,&self.sk,[info.as_bytes()],)?" not in obn or "ctx.open_in_place(&mutciphertext,&tag,info.as_bytes())?" not in obn:
-        raise Fail(f"{rel}: open_psk_seed changed shape")
+        advisory(f"{rel}: open_psk_seed is not literally HPKE auth setup_recv + open_in_place(.., info)")
     if 'if&self.public()?==peer_pk{returnErr(Error::InvalidArgument("same`EncryptionKey`"));}' not in sbn:
-        raise Fail(f"{rel}: seal_psk_seed: same-key check is gone")
+        advisory(f"{rel}: seal_psk_seed: literal same-key check not found")
     L += [f"/-- `Info` in {rel}: domain `{dom.decode()}`; HPKE auth mode, info = AD -/",
           f"def pskDomain : List UInt8 := {lean_bytes(dom)}",
           "inductive PskField where | group",
@@ -144,26 +154,26 @@ def gen():
     rel = "crates/aranya-crypto/src/apq.rs"
     src = strip_comments(read(rel))
     sb, ob = fn_body(src, "seal_topic_key", rel), fn_body(src, "open_topic_key", rel)
-    dom = domain_of(sb, "TopicKeyRotationInfo", rel)
-    if domain_of(ob, "TopicKeyRotationInfo", rel) != dom:
+    dom = domain_of(sb, "TopicKeyRotationInfo", rel, src)
+    if domain_of(ob, "TopicKeyRotationInfo", rel, src) != dom:
         raise Fail(f"{rel}: seal_topic_key/open_topic_key use different domains")
     lay = layout(src, "TopicKeyRotationInfo", rel, dom, {"version": "version", "topic": "topic"})
     sbn, obn = re.sub(r"\s+", "", sb), re.sub(r"\s+", "", ob)
     for b in (sbn, obn):
         if "version:U32::new(version.as_u32()),topic:topic.0," not in b:
-            raise Fail(f"{rel}: TopicKeyRotationInfo is no longer filled with (version, topic)")
+            advisory(f"{rel}: TopicKeyRotationInfo is not literally filled with (version, topic)")
     if "hpke::setup_send::<CS,_>(rng,Mode::Auth(&sk.sk),&self.pk,[ad.as_bytes()])?" not in sbn or "ctx.seal(&mutdst,&key.seed,ad.as_bytes())?" not in sbn:
-        raise Fail(f"{rel}: seal_topic_key changed shape")
+        advisory(f"{rel}: seal_topic_key is not literally HPKE auth setup_send + seal(.., ad)")
     if "hpke::setup_recv::<CS>(Mode::Auth(&pk.pk),&enc.0,&self.sk,[ad.as_bytes()])?" not in obn or "ctx.open(&mutseed,ciphertext.as_bytes(),ad.as_bytes())?" not in obn:
-        raise Fail(f"{rel}: open_topic_key changed shape")
+        advisory(f"{rel}: open_topic_key is not literally HPKE auth setup_recv + open(.., ad)")
     L += [f"/-- `TopicKeyRotationInfo` in {rel}: domain `{dom.decode()}`; HPKE auth mode, info = AD -/",
           f"def topicDomain : List UInt8 := {lean_bytes(dom)}",
           "inductive TopicField where | version | topic",
           "deriving DecidableEq, Repr",
           "def topicLayout : List (TopicField × Nat) := [" + ", ".join(f"(.{n}, {w})" for n, w in lay) + "]", ""]
     # topic key messages
-    tag, items = call_args(fn_body(src, "seal_message", rel), "CS::tuple_hash", rel)
-    tag2, items2 = call_args(fn_body(src, "open_message", rel), "CS::tuple_hash", rel)
+    tag, items = hash_call(src, "seal_message", "CS::tuple_hash", rel)
+    tag2, items2 = hash_call(src, "open_message", "CS::tuple_hash", rel)
     tbl = {"&version.to_be_bytes()[..]": "version", "&topic.as_bytes()[..]": "topic",
            "ident.enc_key.id()?.as_bytes()": "encKey", "ident.sign_key.id()?.as_bytes()": "signKey"}
     o1 = map_items(items, tbl, rel, "seal_message AD")
@@ -175,7 +185,7 @@ def gen():
           "inductive MsgField where | version | topic | encKey | signKey",
           "deriving DecidableEq, Repr",
           "def sealMsgOrder : List MsgField := [" + ", ".join("." + o for o in o1) + "]",
-          "def openMsgOrder : List MsgField := [" + ", ".join("." + o for o in o2) + "]", "",
+          "def openMsgOrder : List MsgField := [" + ", ".join("." + o for o in o2) + "]", ""] + advisory_comment(n0) + ["",
           "end AranyaV.Gen.C37"]
     return "\n".join(L) + "\n"
 
